@@ -252,6 +252,8 @@ def classify(rec, v):
 def run(ctx):
     ctx.ensure_ppl()
     broken = ctx.prove(["PPLV.Props.C07"])
+    if ctx.tier == "thorough":
+        broken += ctx.leanchecker(["PPLV.Props.C07"])
     drv = ctx.ensure_pplv("pplv_pip")
     h = ctx.compile_harness("c07_pip.cc")
     wd = ctx.workdir()
@@ -477,3 +479,11 @@ def run(ctx):
         "UNFEASIBLE is only refuted (a valuation of the box with a point); OPTIMIZED with a tree that is bottom everywhere is not judged",
         "a solve that exceeds the CPU limit is inconclusive (DESIGN §4 (viii)); the simplex/cut algorithm itself is not modelled (stage 2 proves the cut formula only)",
     ]
+
+
+def replay(ctx, path):
+    """re-run the recorded case (or the fixed corpus) on the real library of the current tree and judge it again"""
+    ctx.replay = path
+    run(ctx)
+    print("replay: %d violation(s), %d known finding(s) met" % (len(ctx.violations), len(ctx.known_hits)))
+    return 1 if ctx.violations else 0
